@@ -72,7 +72,8 @@ ConnsNext == Len(hist) < MaxOps /\ (Enter \/ \E r \in Rids : Release(r))
 ConnsRecord == [mode |-> "conns", cfg |-> cfg, ops |-> hist]
 
 \* ---------------------------------------------------------------- rpc mode
-RpcRecord == {[mode |-> "rpc", beh |-> s.beh, late |-> s.late, cause |-> s.cause, exp |-> RpcExpected(s)] : s \in RpcScenarios}
+RpcRecord == {[mode |-> "rpc", beh |-> s.beh, late |-> s.late, cause |-> s.cause, wait |-> s.wait,
+               exp |-> RpcExpected(s), at |-> RpcAnsweredAt(s)] : s \in RpcScenarios}
 
 GNext == CASE Mode = "script" -> ScriptNext
            [] Mode = "conns"  -> ConnsNext
